@@ -68,7 +68,10 @@ impl ToBoxLang for Vec<ds::Horizontal> {
                 // Nothing to flush.
                 return;
             };
-            let current_font: i32 = current_font.try_into().unwrap();
+            // Font numbers of 2^31 and above are written as negative integers,
+            // which is what the parser maps back to them (and what the
+            // conversions of single characters and ligatures below do).
+            let current_font = current_font as i32;
             out.push(ast::Horizontal::Chars(ast::Chars {
                 content: Cow::<str>::Owned(buf.clone()).into(),
                 font: current_font.into(),
